@@ -146,6 +146,82 @@ def classify_string(s, d, py, ts):
     return 'ts-string-patch-differs:other'
 
 # ------------------------------------------------------------------ generators
+def _inline_edit(r, line):
+    """a small change INSIDE a line (the line stays similar to itself, so the merger recurses into it and emits a
+    decision on .../source/<line> that carries a character-level diff)"""
+    body = line.rstrip('\r\n'); tail = line[len(body):]
+    if not body: return 'v' + tail
+    c = r.random()
+    if c < 0.3:    # append just before the line end
+        new = body + r.choice([' + 1', '  # note', ')', '_2', ' '])
+    elif c < 0.5:  # prepend
+        new = r.choice(['# ', '    ', '_', '(']) + body
+    elif c < 0.75: # insert in the middle
+        j = r.randint(1, max(1, len(body) - 1)); new = body[:j] + r.choice(['x', '_v', '0', ' ', 'E' + chr(0xe9)]) + body[j:]
+    elif c < 0.9:  # replace one character
+        j = r.randrange(len(body)); new = body[:j] + r.choice(['X', 'q', '*', '7']) + body[j + 1:]
+    else:          # drop one character
+        j = r.randrange(len(body)); new = body[:j] + body[j + 1:]
+    if new == body: new = body + '!'
+    return new + tail
+
+def gen_inline_vs_lines(r, n):
+    """three-way merges in which, inside ONE multi-line string (a cell source), one side edits inside a line while the
+    other side adds / removes WHOLE lines at, above or (control) below that line.  Both changes are unconflicted, so the
+    server sends a decision on .../source/<line> (character-level diff) AND a decision on .../source (line-level diff)
+    for the same string; the deeper one comes first although its key may be the larger.  The browser has to put the
+    flattened pieces back into key order before patching the string.
+    Variation: cell kind, position of the cell among ordinary generated cells, number of lines, which line is edited,
+    kind of in-line edit, kind / size / position of the whole-line change, several in-line edits, a second whole-line
+    change below, last line with or without newline, which side does what."""
+    out = []
+    for t in range(n):
+        nb = gennb.gen_notebook(r, ncells=r.choice([1, 1, 2, 3, 4]), rich=False)
+        ci = r.randrange(len(nb['cells']))
+        cell = nb['cells'][ci]
+        kind = cell['cell_type']
+        pool = [l for l in gennb._pool(kind) if len(l) >= 4]
+        nl = r.choice([2, 3, 4, 4, 5, 6, 8])
+        lines = [l + '\n' for l in r.sample(pool, min(nl, len(pool)))]      # pairwise distinct lines: unambiguous alignment
+        nl = len(lines)
+        if r.random() < 0.25: lines[-1] = lines[-1][:-1]
+        fresh = [l for l in pool if l + '\n' not in lines and l not in lines]
+        # the in-line side
+        j = r.randrange(nl) if t % 4 else nl - 1          # every fourth case: the last line, everything else is above it
+        edited = list(lines); edited[j] = _inline_edit(r, lines[j])
+        if nl > 2 and r.random() < 0.25:
+            j2 = r.choice([x for x in range(nl) if x != j]); edited[j2] = _inline_edit(r, lines[j2])
+        # the whole-line side
+        whole = list(lines)
+        mode = t % 5      # 0: insert above, 1: insert directly before the edited line, 2: delete above, 3: mixed, 4: control (below)
+        def ins(at, k):
+            for l in reversed(r.sample(fresh, min(k, len(fresh)))): whole.insert(at, l + '\n')
+        if mode == 0: ins(r.randint(0, j), r.choice([1, 1, 2, 3]))
+        elif mode == 1: ins(j, r.choice([1, 2]))
+        elif mode == 2:
+            if j == 0: ins(0, 1)
+            else:
+                a = r.randrange(j); k = r.randint(1, min(2, j - a))
+                if a + k < j or r.random() < 0.5: del whole[a:a + k]        # not touching / touching the edited line
+                else: del whole[a:a + 1]
+        elif mode == 3:
+            if j + 1 < nl and r.random() < 0.6:                               # something below as well
+                if r.random() < 0.5 and j + 2 < nl: del whole[j + 2:j + 3]
+                elif whole[-1].endswith('\n'): whole.append((r.choice(fresh) if fresh else 'tail') + '\n')
+            if j > 0 and r.random() < 0.5: del whole[r.randrange(j)]
+            ins(r.randint(0, min(j, len(whole))) if j else 0, 1)
+        else:
+            if j + 1 < nl and r.random() < 0.5: del whole[r.randint(j + 1, nl - 1)]
+            elif whole[-1].endswith('\n'): ins(r.randint(j + 1, nl), 1)
+            else: ins(j + 1, 1) if j + 1 < nl else ins(0, 1)
+        base = copy.deepcopy(nb); one = copy.deepcopy(nb); two = copy.deepcopy(nb)
+        base['cells'][ci]['source'] = ''.join(lines)
+        one['cells'][ci]['source'] = ''.join(edited)
+        two['cells'][ci]['source'] = ''.join(whole)
+        if r.random() < 0.5: one, two = two, one
+        out.append(('inline-vs-lines', base, one, two))
+    return out
+
 def gen_cases(chk, tier):
     r = chk.rng
     k = 1 if tier == 'quick' else 6
@@ -217,6 +293,8 @@ def gen_cases(chk, tier):
     splits = [''.join(c) for n in range(0, 4) for c in itertools.product(alpha, repeat=n)]
     for _ in range(300 * k):
         splits.append(''.join(r.choice(alpha + ['b', ' ', chr(0x1f600), chr(0xe9)]) for _ in range(r.randint(4, 12))))
+    # generated last so that the draws of the families above are unchanged
+    triples += [(s, norm_numbers(b), norm_numbers(l), norm_numbers(rm)) for s, b, l, rm in gen_inline_vs_lines(r, 60 * k)]
     return pairs, triples, splits
 
 # ------------------------------------------------------------------ judging
